@@ -5,7 +5,7 @@ use crate::rng::Rng;
 use crate::term::*;
 use molt::types::*;
 
-/// specifier kinds: ("req" name) ("opt" name default) ("args") ("empty") ("long")
+/// specifier kinds: ("req" name) ("opt" name default) ("args") ("empty") ("blank": white space only) ("long")
 fn kinds() -> Vec<Term> {
     vec![
         tag("req", vec![ts("a")]),
@@ -16,6 +16,7 @@ fn kinds() -> Vec<Term> {
         tag("args", vec![]),
         tag("opt", vec![ts("é"), ts("{")]),
         tag("empty", vec![]),
+        tag("blank", vec![]),
         tag("long", vec![]),
     ]
 }
@@ -26,6 +27,7 @@ fn spec_value(k: &Term) -> Value {
         "opt" => Value::from(vec![Value::from(k.nth(1).as_str()), Value::from(k.nth(2).as_str())]),
         "args" => Value::from("args"),
         "empty" => Value::from(""),
+        "blank" => Value::from(" \t"),
         _ => Value::from("p q r"),
     }
 }
@@ -72,7 +74,7 @@ pub fn gen(tier: &str, seed: u64) -> Gen {
             n += 1;
         }
     }
-    (cases, vec![(format!("all parameter lists of length<={} over 9 specifier kinds x call arities 0..n+2", maxlen), n, thorough)])
+    (cases, vec![(format!("all parameter lists of length<={} over 10 specifier kinds x call arities 0..n+2", maxlen), n, thorough)])
 }
 
 pub fn run(case: &Term) -> Term {
